@@ -200,6 +200,26 @@ CORPUS = [
 ]
 
 
+def buffer_campaign(ctx, res: Result, cases, metas, n, corpus=True):
+    """The built-in corpus and n random programs under seeded random schedules (also run by the checks of properties whose
+    model sits on top of the buffer, e.g. C01)."""
+    from harness import detsched as ds
+    from harness import dqprog
+    rng = ctx.rng("buf")
+    k = 0
+    for prog in CORPUS + ([c["program"] for c in ctx.corpus() if "program" in c] if corpus else []):
+        for seed in range(6):
+            k += 1
+            record(prog, dqprog.run_buf_program(prog, ds.RandomChooser(7000 + k, tick_prob=0.1)), res, cases, metas)
+    for c in (ctx.corpus() if corpus else []):
+        if "schedule" in c:
+            record(c["program"], dqprog.run_buf_program(c["program"], ds.ReplayChooser(c["schedule"])), res, cases, metas)
+    for i in range(n):
+        prog = dqprog.gen_buf_program(rng)
+        s = dqprog.run_buf_program(prog, ds.RandomChooser(ctx.seed * 100003 + i, tick_prob=0.1))
+        record(prog, s, res, cases, metas)
+
+
 def run(ctx) -> Result:
     from harness import detsched as ds
     from harness import dqprog
@@ -209,20 +229,7 @@ def run(ctx) -> Result:
                 "close(); seeded random schedules with clock ticks (quick) / all schedules with <= 2 pre-emptions (thorough, "
                 "small sequences); non-trivial = a pair or a lone FROM was delivered or a cross-read remove() succeeded")
     cases, metas = [], []
-    rng = ctx.rng("buf")
-    k = 0
-    for prog in CORPUS + [c["program"] for c in ctx.corpus() if "program" in c]:
-        for seed in range(6):
-            k += 1
-            record(prog, dqprog.run_buf_program(prog, ds.RandomChooser(7000 + k, tick_prob=0.1)), res, cases, metas)
-    for c in ctx.corpus():
-        if "schedule" in c:
-            record(c["program"], dqprog.run_buf_program(c["program"], ds.ReplayChooser(c["schedule"])), res, cases, metas)
-    n = 400 if not ctx.thorough else 3000
-    for i in range(n):
-        prog = dqprog.gen_buf_program(rng)
-        s = dqprog.run_buf_program(prog, ds.RandomChooser(ctx.seed * 100003 + i, tick_prob=0.1))
-        record(prog, s, res, cases, metas)
+    buffer_campaign(ctx, res, cases, metas, 400 if not ctx.thorough else 3000)
     if ctx.thorough:
         small = ctx.rng("small")
         total = 0
@@ -241,6 +248,11 @@ def run(ctx) -> Result:
                 record(prog, s, res, cases, metas)
         res.notes.append(f"thorough: all schedules with <= 2 pre-emptions (max 300 per program) of 20 small programs: {total} runs")
     compare(res, cases, metas)
+    # below the scripted batch source: the bytes of one read() -> records, however the kernel cut the stream
+    # (byte-level model CodecInotify.v, theorems in coq/Props/C20.v; runner shared with C20)
+    from harness.props import c20
+    c20.run_inotify_codec(ctx, res)
+    res.notes.append("byte level: Inotify._parse_event_buffer against CodecInotify.decode (round-trip + malformed buffers), shared with C20")
     return res
 
 
@@ -248,6 +260,9 @@ def replay(ctx, obj) -> int:
     from harness import detsched as ds
     from harness import dqprog
     case = obj.get("case", obj)
+    if isinstance(case, dict) and case.get("codec") == "inotify" or "program" not in case:
+        from harness.props import c20
+        return c20.replay(ctx, obj)
     res = Result()
     cases, metas = [], []
     s = dqprog.run_buf_program(case["program"], ds.ReplayChooser(case["schedule"]))
